@@ -39,6 +39,7 @@ func init() {
 		}
 		// Softmax / LogSoftmax
 		sshapes := [][]int{{2}, {2, 2}}
+		gridRows := [][]int{} // filled in once the finite-domain lifting of float terms is in place
 		rshapes2 := [][]int{{2}, {3}, {2, 2}, {2, 3}, {3, 2}, {2, 2, 2}}
 		if th {
 			rshapes2 = append(rshapes2, []int{1, 2, 3}, []int{2, 1, 2, 2})
@@ -49,6 +50,10 @@ func init() {
 					break // the IEEE overflow proofs take ~1 min per assertion: thorough tier only
 				}
 				p.Jobs = append(p.Jobs, Job{Harness: "opset13.H_C09_softmax", Case: map[string]interface{}{"op": op, "shape": s, "dtype": "float32", "default": true}})
+			}
+			// IEEE on the grid {-200,0,200}: long rows (a slip in the row maximum of a long row shows as an overflow)
+			for _, s := range gridRows {
+				p.Jobs = append(p.Jobs, Job{Harness: "opset13.H_C09_softmax", Case: map[string]interface{}{"op": op, "shape": s, "dtype": "float32", "default": true, "grid": true, "axis": -1}})
 			}
 			for _, s := range rshapes2 {
 				p.Jobs = append(p.Jobs, Job{Harness: "opset13.H_C09_softmax_ring", Case: map[string]interface{}{"op": op, "shape": s, "default": false}})
